@@ -915,6 +915,22 @@ func streamTrie(o opts) {
 					pat = p + "*"
 					wild = true
 				}
+				inner := false
+				if len(p) > 1 && r.Intn(5) == 0 {
+					// a '*' that is not the last character is a literal: the pattern names one (odd) path, never a subtree
+					i := r.Intn(len(p))
+					pat = p[:i] + "*" + p[i:]
+					if star && r.Intn(2) == 0 {
+						pat += "*"
+					} else {
+						star = false
+					}
+					inner = true
+					parts = strings.FieldsFunc(strings.TrimSuffix(pat, "*"), func(c rune) bool { return c == '/' })
+				}
+				if inner {
+					m.count("match_inner_star")
+				}
 				got := idx.Match(pat)
 				var gi []int
 				for _, s := range got {
@@ -1331,6 +1347,50 @@ func streamIndex(o opts) {
 		}
 		unwatch()
 		mw.Close()
+	}
+	// (e) Clear racing stores: 8 goroutines keep requesting their own paths (every miss stores) while Clear runs in a
+	// loop; afterwards, at quiescence, the index must reach exactly what is cached and Invalidate("/*") must leave no HIT.
+	for rep := 0; rep < 4; rep++ {
+		mw := newMW(0, httpcache.PathExtractorFromKey)
+		hnd := mw.Wrap(http.HandlerFunc(func(w http.ResponseWriter, rq *http.Request) { w.Write([]byte("ok")) }))
+		ctx := fmt.Sprintf("Clear racing stores, round %d", rep)
+		watch(ctx)
+		var wg sync.WaitGroup
+		var stopC atomic.Bool
+		for g := 0; g < 8; g++ {
+			wg.Add(1)
+			go func(g int) {
+				defer wg.Done()
+				for i := 0; !stopC.Load(); i++ {
+					hnd.ServeHTTP(httptest.NewRecorder(), httptest.NewRequest("GET", fmt.Sprintf("/clr/%d/%d", g, i%6), nil))
+				}
+			}(g)
+		}
+		for i, t0 := 0, time.Now(); i < 400 && time.Since(t0) < 2*time.Second; i++ {
+			mw.Clear()
+			runtime.Gosched()
+		}
+		stopC.Store(true)
+		wg.Wait()
+		settle(mw)
+		quiescentCheck(mw, ctx)
+		mw.Invalidate("/*")
+		stale := 0
+		for g := 0; g < 8; g++ {
+			for i := 0; i < 6; i++ {
+				rec := httptest.NewRecorder()
+				hnd.ServeHTTP(rec, httptest.NewRequest("GET", fmt.Sprintf("/clr/%d/%d", g, i), nil))
+				if rec.Header().Get("X-Cache") == "HIT" {
+					stale++
+				}
+			}
+		}
+		if stale > 0 {
+			m.violate("C15", fmt.Sprintf("%s: %d of 48 responses were still served from the cache after Invalidate(/*) returned with no request in flight (stores had raced Clear)", ctx, stale), ctx)
+		}
+		unwatch()
+		mw.Close()
+		m.count("clear_race_rounds")
 	}
 	// regression for finding F5 (fixed): the schedule index r1, index r2, Set r2, r2 evicted and notified, Set r1, driven
 	// through the real store with the cooperative scheduler (a store parks at the yield point inside its cache write).
